@@ -3,7 +3,7 @@
     pipeline invariant (Proofs/WriterConc.v). *)
 From Coq Require Import ZArith Lia List Bool.
 From Hts Require Import Base.Prim Base.WrList Generated Model.Bgzf Model.Writer Model.WriterConc
-  Proofs.Bgzf Proofs.Writer Proofs.WriterConc.
+  Proofs.Bgzf Proofs.Writer Proofs.WriterConc Proofs.WriterEof.
 Import ListNotations.
 Open Scope Z_scope.
 
@@ -331,7 +331,9 @@ Section Thms.
       /\ x_out st = map Mb (firstn k (s_sub s)) ++ (if s_eof s then [bgzf_magicBlock] else [])
       /\ gunzip_multi inflate crc32 (out_bytes st) = Some (concat (firstn k (s_sub s)))
       /\ prefix_of (concat (firstn k (s_sub s))) (s_data s)
-      /\ (x_err st <> None -> s_eof s = false).
+      /\ (x_err st <> None -> s_eof s = false)
+      /\ Forall small (firstn k (s_sub s))
+      /\ (s_eof s = true -> s_closed s = true /\ x_err st = None).
   Proof.
     intros st s.
     destruct (run_conc_any deflate crc32 pm guard ovf lvl h deflate_bound gen_patch_at_12 Hl Hs fault wc script sched)
@@ -347,7 +349,8 @@ Section Thms.
       split; [unfold out_bytes; fold st; rewrite C3; apply gunzip_multi_members; assumption|].
       split.
       { rewrite <- (si_data _ _ SI). rewrite C1. exists (concat ps ++ pend s). rewrite concat_app, <- app_assoc. reflexivity. }
-      intros E. pose proof (ci_err _ _ _ _ _ _ I). contradiction.
+      split; [intros E; pose proof (ci_err _ _ _ _ _ _ I); contradiction|].
+      split; [assumption|]. intros E. split; [apply (si_eof_closed _ _ SI E)|apply (ci_err _ _ _ _ _ _ I)].
     - destruct F as (He & Heof & done & D1 & D2 & D3 & D4). fold s in Heof, D1, D4.
       exists (length done). rewrite (prefix_firstn _ _ D1).
       split; [destruct D1 as [t ->]; rewrite app_length; lia|].
@@ -355,7 +358,40 @@ Section Thms.
       split.
       { unfold out_bytes. fold st. rewrite D2. rewrite <- (app_nil_r (map _ done)).
         change (@nil (list Z)) with (if false then [bgzf_magicBlock] else []). apply gunzip_multi_members. assumption. }
-      split; [assumption|]. intros _. reflexivity.
+      split; [assumption|]. split; [intros _; reflexivity|]. split; [assumption|]. intros E. congruence.
+  Qed.
+
+  (** ---- the marker is there iff the writer was closed without error ------- *)
+  Hypothesis deflate_min : forall l d, 2 <= zlen (deflate l d).
+  Hypothesis deflate_empty_tail : forall l, skipn (length (deflate l []) - 2) (deflate l []) <> [3; 0].
+
+  Theorem conc_eof_iff (fault : Z -> bool) wc script sched :
+    let st := run_conc deflate crc32 pm guard ovf lvl h fault wc script sched in
+    (has_eof (out_bytes st) = true <-> s_eof (x_api st) = true)
+    /\ (s_eof (x_api st) = true -> s_closed (x_api st) = true /\ x_err st = None).
+  Proof.
+    intros st.
+    destruct (conc_block_prefix_faulty fault wc script sched) as (k & _ & K2 & _ & _ & _ & Ksm & Kcl).
+    fold st in K2, Ksm, Kcl. split; [|exact Kcl].
+    unfold out_bytes. rewrite K2. destruct (s_eof (x_api st)).
+    - rewrite concat_app. cbn [concat]. rewrite app_nil_r. rewrite has_eof_app_magic. tauto.
+    - rewrite app_nil_r.
+      assert (X : has_eof (concat (map Mb (firstn k (s_sub (x_api st))))) = false)
+        by exact (members_no_eof deflate crc32 deflate_min deflate_empty_tail lvl h _ Ksm).
+      rewrite X. split; discriminate.
+  Qed.
+
+  Theorem seq_eof_iff script fuel :
+    let s := run_writer fuel script in
+    has_eof (sout s) = true <-> s_eof s = true.
+  Proof.
+    intros s. pose proof (run_writer_inv fuel script) as I. fold s in I.
+    unfold sout, seq_out. rewrite (seq_chunks_M s _ I). destruct (s_eof s).
+    - rewrite concat_app. cbn [concat]. rewrite app_nil_r. rewrite has_eof_app_magic. tauto.
+    - rewrite app_nil_r.
+      assert (X : has_eof (concat (map Mb (s_sub s))) = false)
+        by exact (members_no_eof deflate crc32 deflate_min deflate_empty_tail lvl h _ (si_sub _ _ I)).
+      rewrite X. split; discriminate.
   Qed.
 End Thms.
 
@@ -505,7 +541,9 @@ Section Final.
       /\ x_out st = map (member_of deflate crc32 lvl h) (firstn k (s_sub s)) ++ (if s_eof s then [bgzf_magicBlock] else [])
       /\ gunzip_multi inflate crc32 (out_bytes st) = Some (concat (firstn k (s_sub s)))
       /\ prefix_of (concat (firstn k (s_sub s))) (s_data s)
-      /\ (x_err st <> None -> s_eof s = false).
+      /\ (x_err st <> None -> s_eof s = false)
+      /\ Forall small (firstn k (s_sub s))
+      /\ (s_eof s = true -> s_closed s = true /\ x_err st = None).
   Proof. exact (conc_block_prefix_faulty deflate inflate crc32 L1 L2 L3 L4 lvl h H1 H2 fault wc script sched). Qed.
 
   Lemma flush_wait_durable_gen wc script sched :
@@ -555,6 +593,37 @@ Section Final.
     - destruct (member_of_fields deflate crc32 L2 lvl default_hdr p D2 Hp) as (_ & _ & F). exact F.
   Qed.
 End Final.
+
+(** Two more facts about the compressor, needed only for "marker => closed":
+    every DEFLATE stream has at least two bytes, and the encoding of the empty
+    payload does not end in 03 00 (the tail of the marker's stream).  Both are
+    checked against compress/flate at every level on every run. *)
+Definition codec_laws_eof (deflate : Z -> list Z -> list Z) : Prop :=
+  (forall l d, 2 <= zlen (deflate l d))
+  /\ (forall l, skipn (length (deflate l []) - 2) (deflate l []) <> [3; 0]).
+
+Lemma eof_iff_closed_ok_gen deflate inflate crc32 :
+  codec_laws deflate inflate crc32 -> codec_laws_eof deflate ->
+  forall lvl h, hdr_ok h ->
+  forall (fault : Z -> bool) wc script sched,
+    let st := run_conc deflate crc32 bgzf_wr_patch_mode bgzf_wr_patch_guard bgzf_wr_overflow_check lvl h fault wc script sched in
+    (has_eof (out_bytes st) = true <-> s_eof (x_api st) = true)
+    /\ (s_eof (x_api st) = true -> s_closed (x_api st) = true /\ x_err st = None).
+Proof.
+  intros (L1 & L2 & L3 & L4) (E1 & E2) lvl h (H1 & H2) fault wc script sched.
+  exact (conc_eof_iff deflate inflate crc32 L1 L2 L3 L4 lvl h H1 H2 E1 E2 fault wc script sched).
+Qed.
+
+Lemma seq_eof_iff_gen deflate inflate crc32 :
+  codec_laws deflate inflate crc32 -> codec_laws_eof deflate ->
+  forall lvl h, hdr_ok h ->
+  forall script fuel,
+    let s := run_writer fuel script in
+    has_eof (wr_out deflate crc32 lvl h s) = true <-> s_eof s = true.
+Proof.
+  intros (L1 & L2 & L3 & L4) (E1 & E2) lvl h (H1 & H2) script fuel.
+  eapply seq_eof_iff; eassumption.
+Qed.
 
 Lemma default_hdr_ok : hdr_ok default_hdr.
 Proof. split; [reflexivity|]. unfold hdr_small, hdr_len. cbn. lia. Qed.
